@@ -107,5 +107,7 @@ structure Inv (s : State) : Prop where
   holdingOwns : ∀ i, (s.tasks i).holding = if (s.tasks i).prio.isSome then (s.tasks i).owns else []
   ownsNodup : ∀ i, (s.tasks i).owns.Nodup
   waitingPos : ∀ i k, (s.tasks i).waitingOn = some k ↔ ((s.tasks i).prio.isSome ∧ (s.tasks i).pos = .acq k)
+  /-- a task does not wait for a lock it holds (guard of `Ev.acquire`) -/
+  waitNotOwn : ∀ i k, (s.tasks i).pos = .acq k → k ∉ (s.tasks i).owns
 
 end Asynkit.Lock
